@@ -90,20 +90,35 @@ func GetNaluType(naluHeaderStart byte) NaluType {
 	return NaluType((naluHeaderStart >> 1) & 0x3f)
 }
 
+// nextNaluInSample returns the limits of the NAL unit whose 4-byte length field starts at pos.
+// ok is false if there is no room for a length field, or if the length field points beyond
+// the end of the sample (bad length field, not video?), so that the caller must stop walking.
+func nextNaluInSample(sample []byte, pos uint64) (start, end uint64, ok bool) {
+	if pos+4 > uint64(len(sample)) {
+		return 0, 0, false
+	}
+	naluLength := uint64(binary.BigEndian.Uint32(sample[pos : pos+4]))
+	start = pos + 4
+	end = start + naluLength
+	if end > uint64(len(sample)) {
+		return 0, 0, false
+	}
+	return start, end, true
+}
+
 // FindNaluTypes - find list of nalu types in sample
 func FindNaluTypes(sample []byte) []NaluType {
 	naluList := make([]NaluType, 0)
-	length := len(sample)
-	if length < 4 {
-		return naluList
-	}
-	var pos uint32 = 0
-	for pos < uint32(length-4) {
-		naluLength := binary.BigEndian.Uint32(sample[pos : pos+4])
-		pos += 4
-		naluType := GetNaluType(sample[pos])
-		naluList = append(naluList, naluType)
-		pos += naluLength
+	var pos uint64 = 0
+	for {
+		start, end, ok := nextNaluInSample(sample, pos)
+		if !ok {
+			break
+		}
+		if end > start { // Zero-length NAL units have no header to look at
+			naluList = append(naluList, GetNaluType(sample[start]))
+		}
+		pos = end
 	}
 	return naluList
 }
@@ -111,17 +126,18 @@ func FindNaluTypes(sample []byte) []NaluType {
 // FindNaluTypesUpToFirstVideoNalu - all nalu types up to first video nalu
 func FindNaluTypesUpToFirstVideoNalu(sample []byte) []NaluType {
 	naluList := make([]NaluType, 0)
-	length := len(sample)
-	if length < 4 {
-		return naluList
-	}
-	var pos uint32 = 0
-	for pos < uint32(length-4) {
-		naluLength := binary.BigEndian.Uint32(sample[pos : pos+4])
-		pos += 4
-		naluType := GetNaluType(sample[pos])
+	var pos uint64 = 0
+	for {
+		start, end, ok := nextNaluInSample(sample, pos)
+		if !ok {
+			break
+		}
+		pos = end
+		if end == start {
+			continue // Zero-length NAL units have no header to look at
+		}
+		naluType := GetNaluType(sample[start])
 		naluList = append(naluList, naluType)
-		pos += naluLength
 		if IsVideoNaluType(naluType) {
 			break // Video has started
 		}
@@ -136,19 +152,16 @@ func IsVideoNaluType(naluType NaluType) bool {
 
 // ContainsNaluType - is specific NaluType present in sample
 func ContainsNaluType(sample []byte, specificNaluType NaluType) bool {
-	var pos uint32 = 0
-	length := len(sample)
-	if length < 4 {
-		return false
-	}
-	for pos < uint32(length-4) {
-		naluLength := binary.BigEndian.Uint32(sample[pos : pos+4])
-		pos += 4
-		naluType := GetNaluType(sample[pos])
-		if naluType == specificNaluType {
+	var pos uint64 = 0
+	for {
+		start, end, ok := nextNaluInSample(sample, pos)
+		if !ok {
+			break
+		}
+		if end > start && GetNaluType(sample[start]) == specificNaluType {
 			return true
 		}
-		pos += naluLength
+		pos = end
 	}
 	return false
 }
@@ -195,23 +208,27 @@ func HasParameterSets(b []byte) bool {
 
 // GetParameterSets - get (multiple) VPS,  SPS, and PPS from a sample
 func GetParameterSets(sample []byte) (vps, sps, pps [][]byte) {
-	sampleLength := uint32(len(sample))
-	var pos uint32 = 0
+	var pos uint64 = 0
 naluLoop:
-	for pos < sampleLength {
-		naluLength := binary.BigEndian.Uint32(sample[pos : pos+4])
-		pos += 4
-		switch naluType := GetNaluType(sample[pos]); {
+	for {
+		start, end, ok := nextNaluInSample(sample, pos)
+		if !ok {
+			break
+		}
+		pos = end
+		if end == start {
+			continue // Zero-length NAL units have no header to look at
+		}
+		switch naluType := GetNaluType(sample[start]); {
 		case naluType == NALU_VPS:
-			vps = append(vps, sample[pos:pos+naluLength])
+			vps = append(vps, sample[start:end])
 		case naluType == NALU_SPS:
-			sps = append(sps, sample[pos:pos+naluLength])
+			sps = append(sps, sample[start:end])
 		case naluType == NALU_PPS:
-			pps = append(pps, sample[pos:pos+naluLength])
+			pps = append(pps, sample[start:end])
 		case naluType <= highestVideoNaluType:
 			break naluLoop
 		}
-		pos += naluLength
 	}
 	return vps, sps, pps
 }
